@@ -101,16 +101,23 @@ def analyse_loop(chk, loop, seen):
     cursors = [k for k, v in loop['start_env'].items()
                if isinstance(v, Sym) and v.op == 'typed' and
                'int' in v.args[1]]
+    # integer attributes of objects assigned in the body (a cursor object)
+    attr_cursors = dict(loop.get('start_attrs') or {})
     bufs = buffers_of(loop)
     best = None
     reports = []
-    for k in cursors:
-        v0 = loop['start_env'][k]
+    for k in cursors + sorted(attr_cursors, key=repr):
+        attr = isinstance(k, tuple)
+        v0 = attr_cursors[k] if attr else loop['start_env'][k]
         prog_ok = True
         bound_ok = False
         dmin = None
         for o in conts:
-            v1 = o.state.env.get(k)
+            if attr:
+                ob1 = o.state.store.get(k[0])
+                v1 = getattr(ob1, 'attrs', {}).get(k[1])
+            else:
+                v1 = o.state.env.get(k)
             if v1 is None:
                 prog_ok = False
                 break
@@ -138,7 +145,7 @@ def analyse_loop(chk, loop, seen):
     # exit condition invariance diagnosis
     chk.ob('C08.W', cons, best is not None,
            'cursor %r advances >= 1 per continuing iteration and each such '
-           'iteration has read below len(buffer)' % best if best else
+           'iteration has read below len(buffer)' % (best,) if best else
            'no cursor is both progressing and bounded by the buffer (%s)' %
            '; '.join(reports),
            detail={'candidates': reports, 'continuing_paths': len(conts)},
